@@ -401,10 +401,6 @@ class MultiAxisCache(Contract):
         env["members"] = members
         return g
 
-    def known_regions(self, S, case, env):
-        # open finding: the grouped labels are not rebuilt when a member axis is relabelled after they were first read
-        return {"member-relabelled-after-the-labels-were-read": case["queried"] and case["mut"] != "none"}
-
     def post(self, S, case, env, result):
         import importlib
         MultiAxis = importlib.import_module("dimarray.core.axes").MultiAxis
